@@ -349,8 +349,8 @@ void Value::do_jacobi_symbol() {
     arith_uint256 n, k, t(0);
 
     std::vector<std::vector<uint8_t>> args;
-    if (!extract_values(args)) {
-        // user omitting k value; use secp256k1 field
+    if (data.size() == 32 || !extract_values(args)) {
+        // user omitting k value; use secp256k1 field (a lone 32 byte n is never a list of n and k, even if its bytes read as pushes)
         if (data.size() != 32) abort("n must be 32 bytes (not %zu)", data.size());
         n = UintToArith256(uint256(data));
         k = UintToArith256(SECP256K1_FIELD_SIZE);
